@@ -1049,6 +1049,140 @@ fn cli_worlds_lane(base: u64, n: u64, workers: usize) -> CliLane {
 
 
 // ------------------------------------------------------------------ lane B4: a long-lived process
+// ---- lane B5: the caller's stack. The same call on threads with little and with plenty of stack
+// (each in a fresh process) must return the same result as long as it returns at all: how much
+// head-room the caller happens to have is not part of "text and configuration". For every family
+// of nested documents and every small stack size the depth at which the call dies is found by
+// bisection; below it (50 %, 70 %, 85 %, 93 % of that depth) the result on the small stack is
+// compared with the result on a 256 MiB stack.
+#[derive(Serialize, Deserialize, Clone, Debug)]
+struct HeadroomReplay {
+    engine: String,
+    property: String,
+    family: usize,
+    depth: usize,
+    stack_kib: u64,
+    cfg: vsim::oracle::Cfg,
+    message: String,
+}
+
+fn headroom_doc(family: usize, d: usize) -> String {
+    match family {
+        0 => format!("#{}1{}\n", "f(".repeat(d), ")".repeat(d)),
+        1 => format!("#let x = {}1{}\n", "(".repeat(d), ",)".repeat(d)),
+        2 => format!("#f{}x{}\n", "[#f".repeat(d), "]".repeat(d)),
+        3 => format!("#let x = {}1{}\n", "(a: ".repeat(d), ")".repeat(d)),
+        4 => format!("$ {}x{} $\n", "(".repeat(d), ")".repeat(d)),
+        _ => format!("#{{\n{}1{}\n}}\n", "{ ".repeat(d), " }".repeat(d)),
+    }
+}
+const HEADROOM_FAMILIES: usize = 6;
+
+fn headroom_compare(client: &mut vsim::coresim::refproc::RefClient, family: usize, depth: usize, stack_kib: u64, cfg: vsim::oracle::Cfg) -> std::io::Result<Option<String>> {
+    use vsim::coresim::{Call, Op, Res};
+    let call = Call { op: Op::Content, doc: 0, cfg, feed_prev: false, via_clone: false };
+    let text = headroom_doc(family, depth);
+    let small = client.query_on_stack(&call, &text, Some(stack_kib))?;
+    if small == Res::Panic {
+        return Ok(None); // too deep for this stack: no result, nothing to compare
+    }
+    let big = client.query_on_stack(&call, &text, Some(256 << 10))?;
+    if big == Res::Panic || small == big {
+        return Ok(None);
+    }
+    let show = |r: &Res| match r {
+        Res::Ok(s) => format!("Ok({} bytes, digest {:016x})", s.len(), vsim::rng::fnv(s.as_bytes())),
+        other => format!("{:?}", other),
+    };
+    Ok(Some(format!("family {} nested {} deep, {:?}: on a thread with {} KiB of stack the call returns {}, on one with 256 MiB {}", family, depth, cfg, stack_kib, show(&small), show(&big))))
+}
+
+struct HeadroomOutcome {
+    comparisons: u64,
+    limits: Vec<String>,
+    found: Option<HeadroomReplay>,
+    error: Option<String>,
+}
+
+fn headroom_lane(thorough: bool) -> HeadroomOutcome {
+    use vsim::coresim::{Call, Op, Res};
+    let mut out = HeadroomOutcome { comparisons: 0, limits: vec![], found: None, error: None };
+    let exe = std::env::current_exe().unwrap();
+    let mut client = match vsim::coresim::refproc::RefClient::spawn(&exe, &shim_path(), false, 7) {
+        Ok(c) => c,
+        Err(e) => {
+            out.error = Some(format!("cannot start a reference server: {e}"));
+            return out;
+        }
+    };
+    let stacks: &[u64] = if thorough { &[192, 256, 512, 1024, 2048] } else { &[256, 512, 1024] };
+    let cfgs = [vsim::oracle::Cfg::default(), vsim::oracle::Cfg { column: 20, tab: 4, reorder: false, blank: 2 }];
+    for family in 0..HEADROOM_FAMILIES {
+        for &kib in stacks {
+            let cfg = cfgs[(family + kib as usize) % 2];
+            let call = Call { op: Op::Content, doc: 0, cfg, feed_prev: false, via_clone: false };
+            let mut dies = |d: usize, client: &mut vsim::coresim::refproc::RefClient| -> std::io::Result<bool> { Ok(client.query_on_stack(&call, &headroom_doc(family, d), Some(kib))? == Res::Panic) };
+            // exponential search, then bisection
+            let mut lo = 8usize;
+            let mut hi = 16usize;
+            let cap = 1usize << 15;
+            let r: std::io::Result<Option<usize>> = (|| {
+                if dies(lo, &mut client)? {
+                    return Ok(None);
+                }
+                while hi <= cap && !dies(hi, &mut client)? {
+                    lo = hi;
+                    hi *= 2;
+                }
+                if hi > cap {
+                    return Ok(None); // never dies below the cap (e.g. the parser refuses first)
+                }
+                while hi - lo > (lo / 32).max(1) {
+                    let mid = (lo + hi) / 2;
+                    if dies(mid, &mut client)? {
+                        hi = mid;
+                    } else {
+                        lo = mid;
+                    }
+                }
+                Ok(Some(lo))
+            })();
+            let dmax = match r {
+                Ok(Some(d)) => d,
+                Ok(None) => {
+                    out.limits.push(format!("family {} / {} KiB: no limit found", family, kib));
+                    continue;
+                }
+                Err(e) => {
+                    out.error = Some(format!("reference server: {e}"));
+                    return out;
+                }
+            };
+            out.limits.push(format!("family {} / {} KiB: survives {} levels", family, kib, dmax));
+            for pct in [50usize, 70, 85, 93] {
+                let d = (dmax * pct / 100).max(1);
+                out.comparisons += 1;
+                match headroom_compare(&mut client, family, d, kib, cfg) {
+                    Ok(Some(msg)) => {
+                        if out.found.is_none() {
+                            out.found = Some(HeadroomReplay { engine: "headroom".into(), property: "C17".into(), family, depth: d, stack_kib: kib, cfg, message: msg });
+                        }
+                    }
+                    Ok(None) => {}
+                    Err(e) => {
+                        out.error = Some(format!("reference server: {e}"));
+                        return out;
+                    }
+                }
+            }
+            if out.found.is_some() {
+                return out;
+            }
+        }
+    }
+    out
+}
+
 // One process, one thread, very many calls on tiny documents: every result must equal the first
 // result for the same (call, text) - i.e. nothing accumulates over the life of an embedder.
 #[derive(Serialize, Deserialize, Clone, Debug)]
@@ -1359,6 +1493,27 @@ fn cmd_run(args: &[String]) -> i32 {
         }
     }
 
+    // ---- lane B5: the caller's stack
+    let mut headroom_json = json!({"run": false});
+    if !args.iter().any(|a| a == "--no-headroom") {
+        let h = headroom_lane(tier == "thorough");
+        if let Some(r) = &h.found {
+            let dir = verif_dir().join("replays");
+            let _ = std::fs::create_dir_all(&dir);
+            let path = dir.join(format!("C17-V17.8-headroom-f{}-d{}-s{}.json", r.family, r.depth, r.stack_kib));
+            let _ = std::fs::write(&path, serde_json::to_string_pretty(r).unwrap());
+            violations += 1;
+            println!("VIOLATION property=C17 replay={}", path.display());
+            println!("  invariant V17.8-headroom: {}", r.message);
+            reported.push(json!({"invariant": "V17.8-headroom", "message": r.message, "replay": path}));
+        }
+        if let Some(e) = &h.error {
+            eprintln!("WARNING: the stack head-room lane stopped early: {e}");
+        }
+        headroom_json = json!({"run": true, "comparisons_small_stack_vs_256MiB": h.comparisons, "depth_limits_found": h.limits, "error": h.error,
+            "note": "families of nested documents (calls, arrays, content blocks, dictionaries, math, code blocks); per family and stack size (256 KiB .. 1 MiB; thorough: 192 KiB .. 2 MiB) the nesting depth at which the single call dies is bisected in fresh processes, and at 50/70/85/93 % of it the result on the small stack is compared with the result on a 256 MiB stack"});
+    }
+
     // ---- lane B3 (thorough tier, or on request): Miri many-seeds
     // quick: only the scenario with concurrent calls under different configurations (the one place
     // where a race inside code that has no hook point can hide), 16 seeds; thorough: all four
@@ -1444,6 +1599,7 @@ fn cmd_run(args: &[String]) -> i32 {
             "lane_B2_cli_separate_processes": cli_json,
             "lane_B3_miri": miri_json,
             "lane_B4_long_lived_process": soak_json,
+            "lane_B5_callers_stack": headroom_json,
             "harness_errors": st.errors.iter().chain(b.worker_failures.iter()).take(10).collect::<Vec<_>>(),
             "real_vs_stub": {
                 "real": ["typstyle-core and typst-syntax from /repo (built with --cfg typstyle_verif)", "OS threads, thread-locals, allocator, atomics"],
@@ -1511,6 +1667,28 @@ fn cmd_replay(args: &[String]) -> i32 {
                 }
                 None => {
                     eprintln!("HARNESS-ERROR: the soak process did not answer");
+                    2
+                }
+            };
+        }
+    }
+    if let Ok(hr) = serde_json::from_str::<HeadroomReplay>(&text) {
+        if hr.engine == "headroom" {
+            let exe = std::env::current_exe().unwrap();
+            let r = vsim::coresim::refproc::RefClient::spawn(&exe, &shim_path(), false, 7).and_then(|mut c| headroom_compare(&mut c, hr.family, hr.depth, hr.stack_kib, hr.cfg));
+            return match r {
+                Ok(Some(msg)) => {
+                    println!("VIOLATION property=C17 replay={}", path);
+                    println!("  invariant V17.8-headroom: {}", msg);
+                    println!("  {}", if msg == hr.message { "exact replay" } else { "DIFFERS from the recorded message" });
+                    1
+                }
+                Ok(None) => {
+                    println!("replay: the recorded violation (V17.8-headroom) did not reproduce on this tree");
+                    0
+                }
+                Err(e) => {
+                    eprintln!("HARNESS-ERROR: {e}");
                     2
                 }
             };
